@@ -298,3 +298,62 @@ func GCReference(src string) (string, error) {
 	}
 	return outs[0], nil
 }
+
+// RaceCompanion returns the Extra function that runs the free-running -race
+// binary of a check (built by bin/schedcheck.sh as .build/<ID>.race.test): the
+// same harness bodies, no scheduler, many goroutines. It can only add findings
+// (a race report or a free-running mismatch); its silence proves nothing.
+func RaceCompanion(id string) func(tier string) map[string]any {
+	return func(tier string) map[string]any {
+		bin := filepath.Join(kit.Root(), ".build", id+".race.test")
+		if _, err := os.Stat(bin); err != nil {
+			return map[string]any{"race_companion": "not built"}
+		}
+		cmd := exec.Command(bin, "-test.run", "^TestRace$", "-test.count", "1", "-test.timeout", "0")
+		cmd.Env = append(os.Environ(), "VERIF_TIER="+tier, "GORACE=halt_on_error=0")
+		out, err := cmd.CombinedOutput()
+		s := string(out)
+		res := map[string]any{}
+		if strings.Contains(s, "WARNING: DATA RACE") {
+			fr := ""
+			if i := strings.Index(s, "WARNING: DATA RACE"); i >= 0 {
+				fr = kit.FirstRepoFrame(s[i:])
+			}
+			res["race_companion"] = "DATA RACE reported"
+			res["extra_failures"] = []kit.Failure{{Space: "race-companion", Key: "data-race|" + fr, Detail: headStr(s, 6000)}}
+			return res
+		}
+		if err != nil {
+			if strings.Contains(s, "MISMATCH") {
+				key := "free-running-run-differs"
+				for _, l := range strings.Split(s, "\n") {
+					if i := strings.Index(l, "MISMATCH-KEY "); i >= 0 {
+						key = strings.TrimSpace(l[i+len("MISMATCH-KEY "):])
+						break
+					}
+				}
+				res["race_companion"] = "free-running mismatch"
+				res["extra_failures"] = []kit.Failure{{Space: "race-companion", Key: key, Detail: headStr(s, 6000)}}
+				return res
+			}
+			res["race_companion"] = "failed to run"
+			res["harness_error"] = "race companion: " + err.Error() + "\n" + headStr(s, 3000)
+			return res
+		}
+		last := ""
+		for _, l := range strings.Split(s, "\n") {
+			if strings.Contains(l, "race-companion:") {
+				last = strings.TrimSpace(l)
+			}
+		}
+		res["race_companion"] = last
+		return res
+	}
+}
+
+func headStr(s string, n int) string {
+	if len(s) > n {
+		return s[:n]
+	}
+	return s
+}
